@@ -56,6 +56,12 @@ def generate(rseed, tier='quick'):
           rules = editgen.abstract_rules(e)
         else:
           rules += editgen.abstract_rules(e)
+    if 'FULLY_CONNECTED' in spec.qnames_present() and r.random() < 0.1:
+      # a runnable sub-channel rule, built with enum members, right before the generation is
+      # quantized and saved: its reload is string-valued
+      ops.append({'op': 'update', 'q': 0, 'regex': r.choice(['.*', r.choice(pool)]),
+                  'operation': 'FULLY_CONNECTED', 'config': r.choice(A.BLOCKWISE_RUNNABLE),
+                  'algorithm': A.MINMAX, 'spelling': 'enum'})
     did_q = False
     if r.random() < 0.75:
       ops.append({'op': 'quantize', 'q': 0})
